@@ -67,13 +67,13 @@ PROPS['C17'] = dict(
     id='C17',
     domains=['validate'],
     n=dict(quick=2000, thorough=100000),
-    theorems=[('Properties.C17', ['C17_table_is_reference', 'C17_strict_accepts_iff_spec', 'C17_warn_returns_record_with_all_defects', 'C17_warn_findings_iff_strict_rejects', 'C17_no_defect_iff_accepted', 'C17_ignore_no_findings'])],
+    theorems=[('Properties.C17', ['C17_table_is_reference', 'C17_strict_accepts_iff_spec', 'C17_warn_returns_record_with_all_defects', 'C17_warn_findings_iff_strict_rejects', 'C17_no_defect_iff_accepted', 'C17_ignore_no_findings', 'C17_parser_under_warn_still_returns_the_record'])],
     classify=c17_classify,
     spec_project=c17_project,
     rule='(1) exhaustive: every known field x 9 record types (8 + unknown) x 3 versions (1.0, 1.1, unknown) x multiplicity {1,2} x {valid, invalid} value, policies alternating warn/fail = 5184 header sets; (2) seeded random header sets with missing mandatory fields, 0-4 extra fields with valid/invalid values, shuffled; (3) every header set strict rejects is also sent through the parser under warn, which must return the record (warn-drops-record); distinct = distinct implementation observations; non-trivial = validation went past the record-type resolution',
     nontrivial=lambda c, o: not o.startswith('err:mt') and not o.startswith('err:ut'),
     stats=lambda c, o: ['spec:%s' % c.split()[1], o.split(';')[0].split(':')[0]] + (['finding:' + k for k in set(o.split(';f=')[1].split(';')[0].split(',')) if k] if ';f=' in o else []),
-    level_text='Proved in Coq for every header set WarcFields can hold (canonical names), every WARC version id, every setting of the unknown-type axis and every behaviour of the value-syntax oracles: strict validation accepts exactly when the property\'s conditions hold (C17_strict_accepts_iff_spec); under warn the record is returned and the findings are exactly the list of defects, so exactly the rejected header sets produce findings (C17_warn_*); ignore produces none. The field table the model runs on is regenerated from headerfielddef.go on every run and proved equal to the hand-transcribed reference table (C17_table_is_reference); the executable specification is evaluated over the reference table. Model tied to validateHeader by an exhaustive field x type x version x multiplicity x valid/invalid sweep plus random multi-defect header sets.',
+    level_text='Proved in Coq for every header set WarcFields can hold (canonical names), every WARC version id, every setting of the unknown-type axis and every behaviour of the value-syntax oracles: strict validation accepts exactly when the property\'s conditions hold (C17_strict_accepts_iff_spec); under warn the record is returned and the findings are exactly the list of defects, so exactly the rejected header sets produce findings (C17_warn_*); ignore produces none. For the parser as a whole (C17_parser_under_warn_still_returns_the_record): with the spec policy at warn and the unknown-type policy not at fail a record is withheld only when the version line or the header section cannot be read (end of input, read error, a syntax error the syntax policy rejects); otherwise a record comes back whatever validation finds. The field table the model runs on is regenerated from headerfielddef.go on every run and proved equal to the hand-transcribed reference table (C17_table_is_reference); the executable specification is evaluated over the reference table. Model tied to validateHeader by an exhaustive field x type x version x multiplicity x valid/invalid sweep plus random multi-defect header sets.',
     level_note='Trusted: Coq kernel, extraction, the field-table translator (go/ast), harness. Oracles: time.Parse(RFC3339), net.ParseIP, whatwg-url parsing, strings.ToLower on non-ASCII. "Well-formed" for time/IP/URI IS the oracle; integers and bracketed ids are modelled exactly. The reference table is the pinned table, not ISO 28500 (not available offline). Findings are compared by coarse kind derived from the error text.',
     assumptions=['header sets are canonical (every name went through WarcFields.Add)', 'reference table = the table at the pinned commit'],
 )
@@ -160,10 +160,10 @@ PROPS['C03'] = dict(
     domains=['ver', 'build', 'unm'],
     no_model={'ver': True},
     n=dict(quick=dict(ver=3000, build=800, unm=800), thorough=dict(ver=150000, build=40000, unm=40000)),
-    theorems=[('Properties.C03', ['C03_fail_reports_wrong_length', 'C03_fail_reports_wrong_block_digest', 'C03_warn_reports_and_returns', 'C03_correct_values_are_never_reported', 'C03_ignore_reports_nothing', 'C03_base16_case_insensitive', 'C03_fail_reports_wrong_payload_digest', 'C03_warn_repairs_length_and_block_digest', 'C03_warn_repairs_payload_digest', 'C03_repaired_text_is_the_digest_of_the_fed_bytes'])],
+    theorems=[('Properties.C03', ['C03_fail_reports_wrong_length', 'C03_fail_reports_wrong_block_digest', 'C03_warn_reports_and_returns', 'C03_correct_values_are_never_reported', 'C03_ignore_reports_nothing', 'C03_base16_case_insensitive', 'C03_fail_reports_wrong_payload_digest', 'C03_warn_repairs_length_and_block_digest', 'C03_warn_repairs_payload_digest', 'C03_true_digest_is_accepted_in_every_encoding_and_case', 'C03_repaired_text_is_the_digest_of_the_fed_bytes'])],
     kinds={'panic', 'unreported', 'false-report', 'repair-untruthful', 'resource-payload-digest'},
     rule='ver: builder and parser path, generic/HTTP/warc-fields/revisit blocks, declared Content-Length correct/shorter/longer, block and payload digests in every algorithm x encoding x letter case x name spelling (sha1, SHA1, sha-1), correct or corrupted at a random position; expectation computed independently (Go crypto + stdlib decoders, encoding-agnostic); warn and fail; repairs checked under warn',
-    level_text='Proved in Coq about ValidateDigest (the same function on the builder and parser path): under fail a disagreeing length, then a disagreeing block digest, then a disagreeing payload digest (HTTP payload; whole block of a resource record) is the error; under warn they are findings and the record is returned; correct declared values are never reported under any policy (soundness); ignore reports nothing; base16 is case-insensitive; and the last sentence: with the repair options on under warn, a declared Content-Length afterwards is the decimal text of the true block length, and a declared block digest / payload digest that disagreed is afterwards algorithm:encoding(hash of exactly the bytes of the block / payload) (C03_warn_repairs_*). The defect that resource records never had their payload digest verified was found by this check and repaired.',
+    level_text='Proved in Coq about ValidateDigest (the same function on the builder and parser path): under fail a disagreeing length, then a disagreeing block digest, then a disagreeing payload digest (HTTP payload; whole block of a resource record) is the error; under warn they are findings and the record is returned; correct declared values are never reported under any policy (soundness); ignore reports nothing; the text of the true digest - hex in lower or upper case, base32 in upper or lower case, base64 - is read by newDigest for every supported algorithm and every default encoding as a digest that does not disagree with the bytes (C03_true_digest_is_accepted_in_every_encoding_and_case; the base32/base64 decoders are oracles assumed to invert the modelled encoders); and the last sentence: with the repair options on under warn, a declared Content-Length afterwards is the decimal text of the true block length, and a declared block digest / payload digest that disagreed is afterwards algorithm:encoding(hash of exactly the bytes of the block / payload) (C03_warn_repairs_*). The defect that resource records never had their payload digest verified was found by this check and repaired.',
     level_note='Trusted: Coq kernel, extraction (ExtrOcamlBasic), harness and generators. Oracles: hash functions (Python hashlib), base32/base64 decoders, mime.WordDecoder, net/http header parsing, whatwg-url, net.ParseIP, time.Parse, Unicode case mapping; klauspost gzip (a member is its payload; a cut member yields a payload prefix then io.ErrUnexpectedEOF). bufio.Reader is remaining bytes + a persistent tail condition. Findings are compared by coarse kind derived from error texts. "Disagrees" is at the level of decoded bytes; the base32/base64 decoders are oracles.',
     assumptions=[],
 )
@@ -181,10 +181,10 @@ PROPS['C06'] = dict(
 PROPS['C07'] = dict(
     id='C07', domains=['pol', 'unm', 'validate'], no_model={'pol': True},
     n=dict(quick=dict(pol=2500, unm=1000, validate=300), thorough=dict(pol=100000, unm=40000, validate=20000)),
-    theorems=[('Properties.C07', ['C07_header_validation_keeps_every_field', 'C07_digest_verification_changes_nothing_with_repairs_off', 'C07_clean_record_carries_a_block_of_the_declared_length', 'C07_two_policy_settings_return_the_same_record'])],
+    theorems=[('Properties.C07', ['C07_header_validation_keeps_every_field', 'C07_digest_verification_changes_nothing_with_repairs_off', 'C07_clean_record_carries_a_block_of_the_declared_length', 'C07_two_policy_settings_return_the_same_record', 'C07_repairs_touch_only_the_length_and_digest_fields'])],
     kinds={'panic', 'block-shortened', 'short-stream-under-ignore', 'policy-changes-header', 'policy-changes-block', 'value-destroyed'},
     rule='pol: streams with invalid field values, illegal fields, wrong lengths (shorter, longer, non-canonical spelling) and digests, bare-LF line ends, plain or gzip, read under two policy settings with repairs all-off or default: header fields and block bytes equal (repairs off) or differing only in Content-Length / digest fields / appended CRLF (repairs on); every returned record delivers its declared block or an error/finding; unm/validate: model correspondence',
-    level_text='Proved in Coq: for the WHOLE parser on plain streams, with the add-missing and repair options off, any two policy settings that both return a record without error return the same record - version, type, header fields and values, block bytes - and the same rest of the stream (C07_two_policy_settings_return_the_same_record; both agree with the all-ignore run, which cannot be the one that errs because rejection is monotone); stage facts: header validation under ignore and warn returns exactly the header fields it was given, whatever is wrong with them (the defect that warn replaced invalid values by the empty string was found here and repaired); with the add/repair options off, length and digest verification never changes a header field under any policy; and the block clause: for every stream and option setting with the spec policy above ignore, a record that the parser returns with no error and no finding has a block of exactly the declared length - never silently empty or shortened (C07_clean_record_carries_a_block_of_the_declared_length). With the spec policy at ignore the length check is off and a stream that ends early goes unnoticed: that is the known finding short-stream-under-ignore (the defect that spec ignore drained the block was found here and repaired). Equality of header values and block bytes across policies with repairs off is additionally evaluated on the implementation (domain pol).',
+    level_text='Proved in Coq: for the WHOLE parser on plain streams, with the add-missing and repair options off, any two policy settings that both return a record without error return the same record - version, type, header fields and values, block bytes - and the same rest of the stream (C07_two_policy_settings_return_the_same_record; both agree with the all-ignore run, which cannot be the one that errs because rejection is monotone); stage facts: header validation under ignore and warn returns exactly the header fields it was given, whatever is wrong with them (the defect that warn replaced invalid values by the empty string was found here and repaired); with the add/repair options off, length and digest verification never changes a header field under any policy; with them on, under every option setting and policy, it leaves the value of every header field other than Content-Length, WARC-Block-Digest and WARC-Payload-Digest as it was (C07_repairs_touch_only_the_length_and_digest_fields); and the block clause: for every stream and option setting with the spec policy above ignore, a record that the parser returns with no error and no finding has a block of exactly the declared length - never silently empty or shortened (C07_clean_record_carries_a_block_of_the_declared_length). With the spec policy at ignore the length check is off and a stream that ends early goes unnoticed: that is the known finding short-stream-under-ignore (the defect that spec ignore drained the block was found here and repaired). Equality of header values and block bytes across policies with repairs off is additionally evaluated on the implementation (domain pol).',
     level_note='Trusted: Coq kernel, extraction (ExtrOcamlBasic), harness and generators. Oracles: hash functions (Python hashlib), base32/base64 decoders, mime.WordDecoder, net/http header parsing, whatwg-url, net.ParseIP, time.Parse, Unicode case mapping; klauspost gzip (a member is its payload; a cut member yields a payload prefix then io.ErrUnexpectedEOF). bufio.Reader is remaining bytes + a persistent tail condition. Findings are compared by coarse kind derived from error texts. Known finding: under spec ignore a stream that ends before the declared length yields a silently shortened block.',
     assumptions=[],
 )
@@ -210,13 +210,13 @@ PROPS['C04'] = dict(
     assumptions=[],
 )
 PROPS['C13'] = dict(
-    id='C13', domains=['writer', 'wcont', 'names'], no_model={'wcont': True, 'names': True},
-    n=dict(quick=dict(writer=600, wcont=150, names=40), thorough=dict(writer=30000, wcont=5000, names=2000)),
+    id='C13', domains=['writer', 'wcont', 'names', 'winfo'], no_model={'wcont': True, 'names': True, 'winfo': True},
+    n=dict(quick=dict(writer=600, wcont=150, names=40, winfo=200), thorough=dict(writer=30000, wcont=5000, names=2000, winfo=6000)),
     theorems=[('Properties.C13', ['C13_every_file_begins_with_its_warcinfo', 'C13_fit_rule', 'C13_names_and_in_progress_state', 'C13_callback_arguments', 'C13_names_distinct_under_every_schedule', 'C13_int32_serials_distinct_within_2_32_calls', 'C13_load_then_store_refuted']),
               ('Properties.SerialTable', ['C13_serial_is_taken_by_one_atomic_add'])],
     kinds={'panic', 'warcinfo-rule', 'fit-rule', 'bad-name', 'open-file-left', 'callback-args', 'unreadable-file'},
-    rule='writer domain (see C04): files are read back sequentially: first record is the warcinfo naming the file, exactly one, all others carry its id; no record appended beyond the limit to a file that already holds data (scaled declared length); names unique, compression suffix iff compressed, no in-progress suffix after Close; callback gets final name, true size, warcinfo id; names domain: several goroutines call NewWarcfileName on one generator, all names returned must differ (bad-name)',
-    level_text='Proved in Coq over all reachable states of the sequential writer: with a warcinfo generator every file begins with the warcinfo record built for its own name and every other record in it was stamped with the id of that record; a record is appended to a file that already holds data only if size + (scaled) declared length fits the limit, otherwise a new file is started; file names are exactly the names of the generator in order (never reused, for an injective generator), only the last file can be in progress; the callback receives final name, true size and warcinfo id. A record is one entry of one file by construction of the model (never split). Callers sharing one generator (goroutines, several writers): with the serial taken by one atomic add the serials handed out under every schedule of any number of calls are c+1, c+2, ... without repetition, so names are pairwise different for a pattern injective in the serial (C13_names_distinct_under_every_schedule); load-then-store is refuted by a four-step schedule (C13_load_then_store_refuted); that the current source touches a Serial field only through sync/atomic and modifies it only by an atomic add is regenerated from the source on every run (C13_serial_is_taken_by_one_atomic_add); for the int32 counter of the code the same holds from any start value within 2^32 calls (C13_int32_serials_distinct_within_2_32_calls), beyond which serials repeat; the implementation is run with several goroutines on one generator (names domain). Model tied to warcfile.go by exact agreement of responses, file sizes and callbacks on every generated sequence.',
+    rule='writer domain (see C04): files are read back sequentially: first record is the warcinfo naming the file, exactly one, all others carry its id; no record appended beyond the limit to a file that already holds data (scaled declared length); names unique, compression suffix iff compressed, no in-progress suffix after Close; callback gets final name, true size, warcinfo id; names domain: several goroutines call NewWarcfileName on one generator, all names returned must differ (bad-name); winfo domain: a warcinfo generator that fails on some of its calls (its function returns an error, or it adds a field the strict record options reject): in the end every file begins with its own warcinfo record, every other record carries its id, no file is left under its in-progress name or under a final name without whole records, every acknowledged record is where the response says (warcinfo-rule)',
+    level_text='Proved in Coq over all reachable states of the sequential writer: with a warcinfo generator every file begins with the warcinfo record built for its own name and every other record in it was stamped with the id of that record; a record is appended to a file that already holds data only if size + (scaled) declared length fits the limit, otherwise a new file is started; file names are exactly the names of the generator in order (never reused, for an injective generator), only the last file can be in progress; the callback receives final name, true size and warcinfo id. A record is one entry of one file by construction of the model (never split). Callers sharing one generator (goroutines, several writers): with the serial taken by one atomic add the serials handed out under every schedule of any number of calls are c+1, c+2, ... without repetition, so names are pairwise different for a pattern injective in the serial (C13_names_distinct_under_every_schedule); taken by load-then-store instead, a four-step schedule hands out a serial twice (C13_load_then_store_refuted); that the current source touches a Serial field only through sync/atomic and modifies it only by an atomic add is regenerated from the source on every run (C13_serial_is_taken_by_one_atomic_add); for the int32 counter of the code the same holds from any start value within 2^32 calls (C13_int32_serials_distinct_within_2_32_calls), beyond which serials repeat; the implementation is run with several goroutines on one generator (names domain). Model tied to warcfile.go by exact agreement of responses, file sizes and callbacks on every generated sequence.',
     level_note='Trusted: Coq kernel, extraction, harness. The file system is abstract: a file is the list of records appended to it; entry sizes are plain lengths or the gzip member size (oracle: klauspost gzip at the default level, computed outside gowarc). float64 ratio scaling is an oracle. The name generator is assumed injective (PatternNameGenerator with {serial}). os.OpenFile/Stat/Sync/Close/Rename are assumed to behave as the model says; their failure paths are not modelled. ',
     assumptions=[],
 )
@@ -291,8 +291,8 @@ PROPS['C10'] = dict(
                  'file system calls and user hooks inside a critical section return'],
 )
 PROPS['C12'] = dict(
-    id='C12', domains=['crash'], no_model={'crash': True},
-    n=dict(quick=dict(crash=300), thorough=dict(crash=10000)),
+    id='C12', domains=['crash', 'winfo'], no_model={'crash': True, 'winfo': True},
+    n=dict(quick=dict(crash=300, winfo=120), thorough=dict(crash=10000, winfo=3000)),
     theorems=[('Properties.C12', ['C12_final_files_are_never_written_again', 'C12_acknowledged_records_are_already_appended', 'C12_a_final_file_holds_all_its_records_at_every_kill_point'])],
     kinds={'panic', 'crash-unsafe'},
     rule='crash: writer sequences as in C04 under the verif hooks; at EVERY file-system effect point (create, first and second half of every write, sync, close, rename, callback) the directory is snapshotted (= what a kill at that instant leaves): final-named files equal their final content, in-progress files are prefixes of their final content, every record acknowledged before the snapshot is fully present at its reported file and offset; scenarios: plain, a leftover in-progress file of an earlier killed process under the first name, Rotate from another goroutine while a record is half written',
